@@ -81,7 +81,14 @@ type shaper struct {
 
 // streamArg reports whether v denotes the stream being followed.
 func (s *shaper) streamArg(v ssa.Value) bool {
-	return core.Canon(v) == s.stream
+	if core.Canon(v) == s.stream {
+		return true
+	}
+	// a field of the stream holder (q.r / q.w of the reflection codec)
+	if _, isParam := s.stream.(*ssa.Parameter); isParam && len(core.AccessPath(v).Fields) > 0 && core.RootOf(v) == s.stream {
+		return true
+	}
+	return false
 }
 
 func isLoopHeader(b *ssa.BasicBlock) bool {
@@ -139,6 +146,11 @@ func (s *shaper) callTok(call ssa.CallInstruction) (tok, bool) {
 	if cc.IsInvoke() && s.streamArg(cc.Value) {
 		// a method of the stream itself (buf.Bytes(), buf.Len()): not a codec step
 		return tok{}, false
+	}
+	if f := cc.StaticCallee(); f != nil && f.Signature.Recv() != nil && len(cc.Args) > 0 && s.streamArg(cc.Args[0]) {
+		if f.Pkg == nil || !strings.HasPrefix(f.Pkg.Pkg.Path(), core.Module) {
+			return tok{}, false // buf.Bytes(), buf.Len() …
+		}
 	}
 	// immediately invoked function literal capturing the stream
 	if mc, ok := cc.Value.(*ssa.MakeClosure); ok {
